@@ -49,6 +49,8 @@ GENERIC = ["VLeaf", "VOne", "VPair", "VRev", "VMany", "VMix", "VOpt", "pkg.mod.V
 SELFREG = {}   # type name -> number of slots processed before the class registers the object itself (or None)
 PARAMS = ["Parameter", "ViewParameter", "CatParameter", "TransformedParameter"]
 DISTS = ["Distribution", "JointDistributionModel"]
+TREES = ["UnRootedTreeModel", "TimeTreeModel", "ReparameterizedTimeTreeModel", "FlexibleTimeTreeModel"]
+DIFF = "torchtree.evolution.tree_height_transform.DifferenceNodeHeightTransform"
 DIST_CLASSES = {
     "torch.distributions.Normal": ["loc", "scale"],
     "torch.distributions.LogNormal": ["loc", "scale"],
@@ -101,8 +103,10 @@ class SpecGen:
     def literal(self, sp, kind, depth, parent):
         rng = self.rng
         if kind is None:
-            kinds = ["gen"] * 5 + (["param", "dist"] if self.real else [])
+            kinds = ["gen"] * 5 + (["param", "dist", "tree"] if self.real else [])
             kind = rng.choice(kinds)
+        if kind == "tree":
+            return self.tree_literal(sp, depth, parent)
         if kind == "gen":
             deep = depth < self.max_depth and len(sp.lits) < self.size
             ty = rng.choice(GENERIC if deep else ["VLeaf", "VLeaf", "pkg.mod.VLong", "VOpt"])
@@ -140,6 +144,101 @@ class SpecGen:
         if early is None or early >= len(slots):
             sp.defined.append((my_id, kind))
         sp.features.add("depth%d" % min(depth, 4))
+        return d
+
+    # ------------------------------------------------------------------ real tree models with inline sub-objects
+    def _register(self, sp, d, kind, depth, parent):
+        sp.lits.append(d)
+        sp.meta[id(d)] = {"depth": depth, "parent": parent}
+        sp.defined.append((d["id"], kind))
+        sp.features.add("depth%d" % min(depth, 4))
+
+    def _shuffled(self, items):
+        items = list(items)
+        self.rng.shuffle(items)
+        return dict(items)
+
+    def _sized_param(self, sp, values, depth, parent, where):
+        """a Parameter of exactly len(values) entries: a reference to one defined earlier, or a literal"""
+        rng = self.rng
+        pool = getattr(sp, "bylen", {}).get(len(values), [])
+        if pool and rng.random() < 0.3:
+            sp.refs.append(where)
+            sp.features.add("ref")
+            return rng.choice(pool)
+        p = self._shuffled([("id", self.fresh(sp)), ("type", "Parameter"), ("tensor", list(values))])
+        self._register(sp, p, "param", depth + 1, parent)
+        sp.bylen = getattr(sp, "bylen", {})
+        sp.bylen.setdefault(len(values), []).append(p["id"])
+        return p
+
+    def tree_literal(self, sp, depth, parent, ty=None):
+        """UnRootedTreeModel / TimeTreeModel / ReparameterizedTimeTreeModel / FlexibleTimeTreeModel over 3 taxa, with the
+        Taxa (and its Taxon objects), the heights / branch-length parameters inline or by reference; generated in
+        the order the class's from_json processes them"""
+        rng = self.rng
+        ty = ty or rng.choice(TREES)
+        d = {}
+        my_id = self.fresh(sp, "tree")
+        sp.taxa_names = getattr(sp, "taxa_names", {})
+        holder = {}
+        # --- taxa
+        tref = self.pick_ref(sp, "taxa")
+        if tref is not None and rng.random() < 0.35:
+            holder["taxa"] = tref
+            names = sp.taxa_names[tref]
+            sp.refs.append((holder, "taxa"))
+            sp.features.add("ref")
+        else:
+            self.n += 1
+            names = [f"t{self.n}{c}" for c in "ABC"]
+            taxa = {}
+            taxon_list = []
+            for nm in names:
+                t = self._shuffled([("id", nm), ("type", "Taxon"), ("attributes", {"date": 0.0})])
+                self._register(sp, t, "taxon", depth + 2, taxa)
+                taxon_list.append(t)
+            taxa.update(self._shuffled([("id", self.fresh(sp, "taxa")), ("type", "Taxa"), ("taxa", taxon_list)]))
+            self._register(sp, taxa, "taxa", depth + 1, d)
+            sp.taxa_names[taxa["id"]] = names
+            holder["taxa"] = taxa
+        a, b, c = names
+        holder["newick"] = f"(({a}:1,{b}:1):1,{c}:2);"
+        # --- parameters, in processing order
+        if ty == "UnRootedTreeModel":
+            holder["branch_lengths"] = self._sized_param(sp, [0.5, 0.25, 1.0], depth, d, (holder, "branch_lengths"))
+        elif ty == "TimeTreeModel":
+            holder["internal_heights"] = self._sized_param(sp, [1.0, 2.0], depth, d, (holder, "internal_heights"))
+        elif ty == "ReparameterizedTimeTreeModel":
+            if rng.random() < 0.5:
+                holder["shifts"] = self._sized_param(sp, [1.0, 1.0], depth, d, (holder, "shifts"))
+            else:
+                holder["root_height"] = self._sized_param(sp, [2.0], depth, d, (holder, "root_height"))
+                holder["ratios"] = self._sized_param(sp, [0.5], depth, d, (holder, "ratios"))
+        else:  # FlexibleTimeTreeModel: registered from here on
+            sp.defined.append((my_id, "tree"))
+            sp.features.add("self-registered-real")
+            if rng.random() < 0.4:
+                # heights computed from shifts by a transform that refers BACK to the tree (a cycle)
+                tp = {}
+                sub = {"tree_model": my_id}
+                sp.refs.append((sub, "tree_model"))
+                x = self._sized_param(sp, [1.0, 1.0], depth + 1, tp, (tp, "x"))
+                tp.update(self._shuffled([("id", self.fresh(sp)), ("type", "TransformedParameter"), ("transform", DIFF),
+                                          ("parameters", sub), ("x", x)]))
+                sp.refs = [((tp if c_ is None else c_), k_) for c_, k_ in sp.refs]
+                self._register(sp, tp, "param", depth + 1, d)
+                holder["internal_heights"] = tp
+                sp.features.add("tree-cycle")
+            else:
+                holder["internal_heights"] = self._sized_param(sp, [1.0, 2.0], depth, d, (holder, "internal_heights"))
+        d.update(self._shuffled([("id", my_id), ("type", ty)] + list(holder.items())))
+        sp.refs = [((d if c_ is holder else c_), k_) for c_, k_ in sp.refs]
+        sp.lits.append(d)
+        sp.meta[id(d)] = {"depth": depth, "parent": parent}
+        if ty != "FlexibleTimeTreeModel":
+            sp.defined.append((my_id, "tree"))
+        sp.features.add("tree-" + ty)
         return d
 
     def child_list(self, sp, kind, depth, parent, lo=0, hi=3, allow_plate=False):
@@ -329,6 +428,16 @@ def ancestors(sp, d):
     return out
 
 
+def set_id(sp, d, new):
+    """give the literal `d` another id; a Taxon's name also occurs in the newick strings of the trees using it"""
+    old = d.get("id")
+    d["id"] = new
+    if d.get("type") == "Taxon" and isinstance(old, str):
+        for t in sp.lits:
+            if isinstance(t.get("newick"), str):
+                t["newick"] = t["newick"].replace(old + ":", new + ":")
+
+
 def mutate(sp: Spec, rng, which=None):
     """apply one malformation in place; returns (tag, must_reject: bool, detail) or None if not applicable"""
     which = which or rng.choice(MUTATIONS)
@@ -341,14 +450,14 @@ def mutate(sp: Spec, rng, which=None):
             return None
         d = rng.choice(c)
         a = rng.choice(ancestors(sp, d))
-        d["id"] = a["id"]
+        set_id(sp, d, a["id"])
         gap = sp.meta[id(d)]["depth"] - sp.meta[id(a)]["depth"]
         return ("dup-ancestor", True, {"id": a["id"], "levels_apart": gap})
     if which == "dup-any":
         if len(lits) < 2:
             return None
         d, e = rng.sample(lits, 2)
-        d["id"] = e["id"]
+        set_id(sp, d, e["id"])
         return ("dup-any", True, {"id": e["id"]})
     if which == "dup-top":
         tops = [x for x in sp.top if isinstance(x, dict)]
